@@ -30,7 +30,7 @@ SECURE_ORIGINS = {   # fn -> count (reviewed)
     N + 'DnssecDnsHandle::is_dnskey_in_root_store': 1,
     N + 'verify_dnskey': 1,
     N + 'verify_rrset_with_dnskey': 1,
-    N + 'verify_nsec': 4,
+    N + 'verify_nsec': 5,   # direct match, empty non-terminal (F30), NXDOMAIN, wildcard expansion, wildcard NODATA
     N + 'nsec3::validate_nodata_response': 5,   # 6 before fix af62ef8 removed the apex arm that rested on no NSEC3 record (F22)
     N + 'nsec3::validate_nxdomain_response': 2,
 }
@@ -282,6 +282,9 @@ def run(cx):
         falses = cx.assigns(d, r'^Option::Some\(false\)$', place=None)
         cx.check('C07.G4', len(other) == 1 and len(falses) >= 1 and all(x.bb in other or x.bb in cx.reachable_from(d, other, avoid_blocks=[s.bb for s in goi]) for x in falses),
                  d.path, 'arm', 'non-secure-arm-clears-flag', f'arms={len(other)} stores={len(falses)}')
+
+    # ---------------------------------------------------------------- S2 a cached Secure verdict covers exactly the RRset it was reached for
+    C06.cache_key(cx, 'C07.S2')
 
     # ---------------------------------------------------------------- H helper semantics the guards above rely on (rules/helpers.py)
     helpers.check(cx, 'C07.H', ['Proof::is_secure', 'DS::covers', 'Algorithm::is_supported', 'Name::zone_of', 'DNSKEY::zone_key', 'DNSKEY::revoke', 'Name::base_name'])
